@@ -10,7 +10,13 @@ def _harness_flags():
         src = open(os.path.join(os.environ.get('AITB_REPO', '/repo'), 'include/AIToolbox/Utils/Probability.hpp')).read()
     except OSError:
         return ()
-    return ('-DC08_DIRICHLET_2ARG',) if re.search(r'void\s+sampleDirichletDistribution\s*\([^)]*\)\s*;', src) else ()
+    flags = []
+    if re.search(r'void\s+sampleDirichletDistribution\s*\([^)]*\)\s*;', src):
+        flags.append('-DC08_DIRICHLET_2ARG')
+    # fixes/C08-6: Dirichlet / Beta sample log-gammas through sampleLogGammaDistribution; the harness then replays that helper
+    if re.search(r'double\s+sampleLogGammaDistribution\s*\(', src):
+        flags.append('-DC08_LOG_GAMMA')
+    return tuple(flags)
 
 
 
